@@ -198,7 +198,7 @@ def _same_throw(g, a, b):
     return end(a) == end(b)
 
 
-def r_nowrap(F, engine, fn, invariants=(), label=None, entry=frozenset(), delegate=None):
+def r_nowrap(F, engine, fn, invariants=(), label=None, entry=frozenset(), delegate=None, call_args=False):
     """Every arithmetic sub-expression of a throwing bounds guard is wrap-free.
 
     invariants: facts assumed at entry (class invariants established by R-CURSOR)."""
@@ -209,7 +209,29 @@ def r_nowrap(F, engine, fn, invariants=(), label=None, entry=frozenset(), delega
     inst0 = label or fn.qn
     gbs = guard_blocks(engine, fn)
     eb = g.elem_block()
-    for (b, cid, thr, nxt) in gbs:
+    work = list(gbs)
+    if call_args:
+        # arithmetic handed to a bounds-checking callee (or to resize) is checked there on the value it
+        # receives, so it must not have wrapped on the way
+        for nd in fn.nodes:
+            if nd["k"] not in CALLS:
+                continue
+            args = nd.get("args", [])
+            if nd["k"] == "CXXOperatorCallExpr":
+                continue
+            hot = []
+            if nd.get("fname") == "resize" and (nd.get("mrec") or "").startswith("std::") and args:
+                hot = [args[0]]
+            else:
+                for cal in F.callees(nd):
+                    ce = Engine(F, engine.S)
+                    for (cb, ccid, cthr, cnxt) in guard_blocks(ce, cal):
+                        for i, p in enumerate(cal.params):
+                            if i < len(args) and mentions(cal.term(ccid), ("var", p["n"], p["d"])):
+                                hot.append(args[i])
+            for a in hot:
+                work.append((None, a, None, None))
+    for (b, cid, thr, nxt) in work:
         # arithmetic inside the condition, plus inside the initialiser of locals it mentions
         roots = [cid]
         for x in fn.subtree(cid):
@@ -254,8 +276,22 @@ def r_nowrap(F, engine, fn, invariants=(), label=None, entry=frozenset(), delega
                     iw = nd.get("iw") or 64
                     tmax = ("const", (1 << iw) - 1)
                     # pre-check idiom: y > MAX - x refused before the sum is formed
-                    pp = pass_point(engine, fn, b, thr, nxt)
-                    pf = block_facts(engine, fn, pp) or set()
+                    if b is not None:
+                        pp = pass_point(engine, fn, b, thr, nxt)
+                        pf = block_facts(engine, fn, pp) or set()
+                    else:
+                        pf = set()
+                    # bounded-sum idiom: y <= L - x with x <= L, so x + y <= L fits the type
+                    bounded = False
+                    for (u, v) in ((lt, rt), (rt, lt)):
+                        for f in site:
+                            if f[0] in ("<=", "<") and f[1] == v and f[2][0] == "op" and f[2][1] == "-" and f[2][3] == u \
+                                    and prove_le(site, u, f[2][2]):
+                                bounded = True
+                    if bounded:
+                        out.append(ok("R-NOWRAP", inst, fn.loc(x), fn.qn, req,
+                                      "bounded-sum idiom: operand <= limit - other operand with other operand <= limit"))
+                        continue
                     pre = False
                     for (u, v) in ((lt, rt), (rt, lt)):
                         for f in site | pf:
